@@ -27,8 +27,11 @@ def run_batch(exe, ncases_hint=None, stdin=None, seed=None, timeout=300, env_ext
     Returns (cases dict, order, crashes list[(after_case, rc, stderr tail)])."""
     cases, order, crashes = {}, [], []
     start = 0
+    hangs = 0
     for _ in range(200):
-        rc, out, err = run_exe(exe, [str(start)], stdin=stdin, seed=seed, timeout=timeout, env_extra=env_extra)
+        rc, out, err = run_exe(exe, [str(start)], stdin=stdin, seed=seed, timeout=timeout, env_extra=env_extra, stall=max(60, timeout / 5))
+        if rc == "timeout":
+            hangs += 1
         c, o = parse_cases(out)
         for k in o:
             if k not in cases:
@@ -41,8 +44,8 @@ def run_batch(exe, ncases_hint=None, stdin=None, seed=None, timeout=300, env_ext
         m = re.findall(r"^NEXT (\d+)$", out, re.M)
         nxt = int(m[-1]) if m else None
         crashes.append((o[-1] if o else None, rc, (err or "")[-400:], nxt))
-        if nxt is None or nxt + 1 <= start:
-            break
+        if nxt is None or nxt + 1 <= start or hangs >= 8:
+            break   # (after 8 hangs the remaining cases are reported as missing rather than waited for)
         start = nxt + 1
     return cases, order, crashes
 
